@@ -78,7 +78,7 @@ def parseToken (t : String) : Option Token :=
   match (get m "kid").bind parseKid, onat m "hn", (get m "sig").bind String.toNat?, (get m "cl").bind parseClaims,
     get m "ctx", get m "typ", get m "spe", get m "nt", (get m "st").bind parseStatus with
   | some kid, some hn, some sig, some (cl, isDid), some ctx, some typ, some spe, some nt, some st =>
-    some ⟨kid, hn, sig, cl, isDid, ctx == "1", typ == "1", spe == "1",
+    some ⟨kid, hn, sig, cl, isDid, ctx == "1" || ctx == "3", typ == "1" || typ == "3", spe == "1",
       (if nt == "~" then none else some (nt == "1")), st, get m "sd" != some "0"⟩
   | _, _, _, _, _, _, _, _, _ => none
 
